@@ -28,6 +28,7 @@ type Loc struct {
 	Path   []int
 	PathS  string
 	Typ    types.Type
+	ArrObj bool
 }
 
 func (ex *Exec) resolve(p Val) Loc {
@@ -35,7 +36,8 @@ func (ex *Exec) resolve(p Val) Loc {
 	case CellPtr:
 		return Loc{Kind: LCell, Cell: x.C, Typ: x.C.Typ}
 	case RefPtr:
-		return Loc{Kind: LObj, Ref: x.Ref, Prefix: "F|" + typeKey(x.Elem), Typ: x.Elem}
+		_, isArr := under(x.Elem).(*types.Array)
+		return Loc{Kind: LObj, Ref: x.Ref, Prefix: "F|" + typeKey(x.Elem), Typ: x.Elem, ArrObj: isArr}
 	case ElemPtr:
 		return Loc{Kind: LElem, Base: x.Base, Idx: x.Idx, Prefix: "E|" + typeKey(x.Elem), Typ: x.Elem}
 	case GlobalPtr:
@@ -165,6 +167,9 @@ func (ex *Exec) readTyped(l Loc, t types.Type, path string) Val {
 
 // arrayRefAt gives the backing ref of an array stored at path inside the object/element l.
 func (ex *Exec) arrayRefAt(l Loc, path string) *Term {
+	if l.Kind == LObj && l.ArrObj && path == l.PathS {
+		return l.Ref // the object designated by l is the array itself
+	}
 	if l.Kind == LObj {
 		return ex.arrFieldRef(l.Ref, l.Prefix+path)
 	}
@@ -424,7 +429,7 @@ func (ex *Exec) havocAllHeap(why string) {
 
 func (ex *Exec) immutableRegion(name string) bool {
 	if len(name) > 2 && name[:2] == "G|" {
-		return ex.immutableGlobals[globalOfRegion(name)]
+		return ex.globalImmutable(globalOfRegion(name))
 	}
 	return false
 }
